@@ -16,6 +16,12 @@ RULE = ("entry points: Icmpv4Slice (from_slice, icmp_type, header_len, payload),
         "units*8, ARP address sizes 0..8 x 0..8.  Random: mostly valid structured inputs with type/code/length bytes from assigned "
         "values, neighbours and random, truncated/extended, lengths 0..300.  non-trivial = distinct case accepted by the crate "
         "(not a length error) and longer than 8 bytes")
+# ---- audit1-c17 ----
+RULE += ("; typed NDP option slices constructed DIRECTLY from arbitrary bytes (tag oc: Source/TargetLinkLayerAddressOptionSlice, "
+         "PrefixInformationOptionSlice + PrefixInformation::from_slice/from_bytes, RedirectedHeaderOptionSlice, MtuOptionSlice, "
+         "UnknownNdpOptionSlice ::from_slice): 6 constructors x type {0..6,255} x length units 0..5 x 15 sizes, plus random options "
+         "with the constructor's type / foreign types / cut / extended / changed length octet")
+# ---- end audit1-c17 ----
 ASSUMPTIONS = ["64-bit usize (ICMPv6 upper length bound 2^32-1 is modelled, not reachable in the correspondence run)"]
 PROJECTION = "kind tags, all integer fields, all sub-slice ranges (off+len), error records (required_len, len, len_source, layer, offset)"
 
@@ -72,6 +78,24 @@ def corpus():
         "arp 000108000504000101020304050a00000100000000000a000002",
         "arp 00010800ffff0001",
         "arp 0001080006",
+        # ---- audit1-c17 ---- typed NDP option constructors on arbitrary bytes
+        "oc 3 0304c0c0000000010000000200000000fe800000000000000000000000000001",
+        "oc 3 0504c0c0000000010000000200000000fe800000000000000000000000000001",
+        "oc 3 0305c0c0000000010000000200000000fe800000000000000000000000000001",
+        "oc 3 0304c0c0000000010000000200000000fe8000000000000000000000000000",
+        "oc 5 0501000000000500",
+        "oc 5 0301000000000500",
+        "oc 5 0502000000000500",
+        "oc 1 0101020304050607",
+        "oc 1 0201020304050607",
+        "oc 2 0201020304050607",
+        "oc 1 01",
+        "oc 1 -",
+        "oc 4 04010000",
+        "oc 4 0402000000000000",
+        "oc 4 04020000000000004500001400000000",
+        "oc 0 0301000000000000",
+        # ---- end audit1-c17 ----
     ]
 
 
@@ -211,6 +235,29 @@ def gen_cases(rng, tier):
             if i + 1 < n and rng.chance(2, 3):
                 b[i + 1] = rng.below(6)
         cases.append("no " + hx(bytes(b)))
+    # ---- audit1-c17 ---- typed option constructors called directly (kind 0 = UnknownNdpOptionSlice)
+    for k in range(0, 6):
+        for ty in (0, 1, 2, 3, 4, 5, 6, 255):
+            for lu in (0, 1, 2, 3, 4, 5):
+                for n in sorted({0, 1, 2, 7, 8, 9, 15, 16, 17, 24, 31, 32, 33, 40, lu * 8}):
+                    cases.append("oc %d %s" % (k, hx((bytes([ty, lu]) + rng.bytes(40))[:n])))
+    for _ in range(6000 if not big else 150000):
+        k = rng.below(6)
+        opt = bytearray(_ndp_option(rng)[:300])
+        j = rng.below(10)
+        if j < 4 and k and len(opt) >= 2:
+            opt[0] = k                                   # the constructor's own type
+            if k in (3, 5) and rng.chance(3, 4):
+                lu = {3: 4, 5: 1}[k]
+                opt = bytearray(bytes([k, lu]) + rng.bytes(lu * 8 - 2))
+        elif j == 4 and opt:
+            opt = opt[:rng.below(len(opt) + 1)]
+        elif j == 5:
+            opt += rng.bytes(rng.range(1, 9))
+        elif j == 6 and len(opt) >= 2:
+            opt[1] = rng.choice([0, 1, 2, 4, 5, 255])
+        cases.append("oc %d %s" % (k, hx(bytes(opt))))
+    # ---- end audit1-c17 ----
     # ---- NDP messages with options (payload view, then the options area through the iterator)
     for _ in range(4000 if not big else 100000):
         t = _pick_near(rng, [133, 134, 135, 136, 137])
@@ -259,6 +306,12 @@ def gen_cases(rng, tier):
 def _class(tag, out):
     if out.startswith("PANIC") or out.startswith("CRASH") or out.startswith("NOT-RUN"):
         return "crash"
+    # ---- audit1-c17 ----
+    if tag == "oc":
+        if out.startswith("ERR Hdr"):
+            return "oc:unexpected-header"
+        return "oc:reject" if out.startswith("ERR") else "oc:accept"
+    # ---- end audit1-c17 ----
     if tag == "no":
         if "ERR" in out:
             return "no:reject"
